@@ -69,6 +69,10 @@ def run(rep, tier, seed):
                 if style == "vi" and rng.random() < 0.35:
                     reg2 = rng.choice([r for r in "abr" if r != reg])
                     other = b"q" + reg2.encode() + rng.choice([b"x", b"dw", b"iq\x1bl", b"~", b"rz", b"0", b"A!\x1b"]) + b"q"
+                # keys that follow at once: typed after K in one variant, sharing a read with the replay command in the other
+                trailer = b""
+                if rng.random() < 0.4:
+                    trailer = rng.choice([b"Z", b"zz", b"!", b"\x01Q", b"q "]) if style == "emacs" else rng.choice([b"x", b"~", b"ll", b"iZ\x1bl", b"0"])
                 for variant in ("typed", "replayed"):
                     # one Readline call per variant: both start from the same (empty) undo history
                     sess = []
@@ -82,14 +86,22 @@ def run(rep, tier, seed):
                         seq = [b"\x18(", K, b"\x18)", b"\x18e"]
                     else:
                         seq = [b"q" + reg.encode(), K, b"q", other, b"@" + reg.encode()]
-                    for part in seq:
+                    for pi, part in enumerate(seq):
                         if paste:
-                            sess.append(keys(part))
+                            sess.append(keys(part + (trailer if pi == len(seq) - 1 and variant == "replayed" else b"")))
+                        elif trailer and variant == "replayed" and pi == len(seq) - 1:
+                            sess.append(keys(part + trailer))       # the replay command and what follows arrive in one read
                         else:
                             for ch in (split_vi(part) if style == "vi" else [part[i:i + 1] for i in range(len(part))]):
                                 sess.append(keys(ch))
+                    if trailer and not (variant == "replayed"):
+                        if paste:
+                            sess.append(keys(trailer))
+                        else:
+                            for ch in [trailer[i:i + 1] for i in range(len(trailer))]:
+                                sess.append(keys(ch))
                     sess.append({"k": "gate"})
-                pairs.append({"K": K.hex(), "buf": buf, "cur": cur, "style": style, "paste": paste, "other": other.hex()})
+                pairs.append({"K": K.hex(), "buf": buf, "cur": cur, "style": style, "paste": paste, "other": other.hex(), "trailer": trailer.hex()})
             cases.append(cs)
             meta[cs["id"]] = pairs
     log("C18: %d macro scripts in %d cases" % (sum(len(v) for v in words.values()), len(cases)))
@@ -148,7 +160,7 @@ def run(rep, tier, seed):
     rep.rule = ("key scripts K: every word of <= %d items (sampled) plus seeded words of 4..8 items over {letters, quotes, backslash, C-a C-e C-k "
                 "C-y C-w C-t, ESC b/f/d/u, arrows, C-x C-x, DEL, digit argument, quoted-insert + argument; vi: motions, find + argument, counts, "
                 "operators, replace, insert groups}, in the emacs style (C-x ( K C-x ) C-x e) and the vi style (q<r> K q @<r>), from three start "
-                "buffers, typed per key and pasted; non-trivial = distinct (style, K, start buffer) where K changes the buffer" % maxk)
+                "buffers, typed per key and pasted, 40 in 100 followed at once by more keys (sharing a read with the replay command); non-trivial = distinct (style, K, start buffer) where K changes the buffer" % maxk)
     rep.explanation = ("Macro.tla model-checks the recorder (nothing dropped or recorded twice, prefix iterations, argument keys); each K is run on "
                        "the real Shell typed twice and recorded+replayed from the same state, MacroTrace requires the same final buffer")
     rep.assumptions = ["macro keys are ASCII (a recorded non-ASCII character is fed back one truncated byte per rune: not claimed)",
